@@ -9,9 +9,12 @@
        than the vouchers burnt — finding C11 / O4, FIXED: the flow now also compares the module's balance
        ([convert_coin_native_erc20_old] is the flow before the repair);
     2. a token whose balanceOf is not a view of its ledger passes the escrow check of convertERC20NativeToken
-       without moving anything ([honest_view] is necessary) — inherent: the module can only ask the contract. *)
+       without moving anything ([honest_view] is necessary) — inherent: the module can only ask the contract;
+    3. a token that reports honestly but lets somebody else lower the module's balance — the repository's own
+       ERC20MinterBurnerDecimals deployed by a USER and registered as an external pair: its deployer holds
+       BURNER_ROLE and burns the escrow ([others_cannot_debit] is necessary) — inherent as well. *)
 From Teleport Require Import Base.Bytes Base.Outcome Model.Convert Model.ConvertTokens
-  Proofs.ConvertBacking Proofs.ConvertVoucher.
+  Proofs.ConvertBacking Proofs.ConvertVoucher Proofs.ConvertGap.
 Local Open Scope Z_scope.
 
 Definition M0 : Z := 0xEE3c65B5c7F4DD0ebeD8bF046725e273e3eeeD3c.   (* types.ModuleAddress *)
@@ -38,7 +41,7 @@ Definition start (st : zmap) : state xstate :=
      s_bank := []; s_supply := []; s_blocked := [M0]; s_send_default := true; s_send := [];
      s_accts := [M0; U1; U2]; s_mtok := [];
      s_ext := [(TOK, {| et_kind := 5; et_owner := U1; et_alive := true;
-                        et_std := {| st_bal := []; st_total := 0 |}; et_store := st |})] |}.
+                        et_std := {| st_bal := []; st_total := 0; st_allow := [] |}; et_store := st |})] |}.
 
 Definition to_voucher (a : Z) : op :=
   OMsg (MCE {| ce_contract := TOKs; ce_amount := a; ce_receiver := U1; ce_receiver_ok := true;
@@ -113,4 +116,98 @@ Proof.
   { repeat constructor; unfold not_module_signed; cbn; intro H; inversion H. }
   split; [vm_compute; reflexivity|]. split; [vm_compute; reflexivity|]. split; [vm_compute; reflexivity|].
   intro Bk. specialize (Bk PID the_pair VOUCHER). vm_compute in Bk. apply Bk; try reflexivity. left; reflexivity.
+Qed.
+
+(** ** 3. Honest balanceOf, but a third party can debit the module: ERC20MinterBurnerDecimals deployed by U1 *)
+Lemma user_std_honest owner : honest_view (user_std_call owner) user_std_ledger.
+Proof.
+  intros x c caller a x' r H O. unfold user_std_call in H. unfold user_std_ledger.
+  destruct (afind Z.eqb x c) as [t|]; inversion H; subst; [|cbn in O; discriminate].
+  split; reflexivity.
+Qed.
+
+Definition start_user : state ustate :=
+  {| s_params := true; s_evm_call := true;
+     s_pairs := [(PID, the_pair)]; s_erc20 := [(TOK, PID)]; s_denom := [(VOUCHER, PID)];
+     s_bank := []; s_supply := []; s_blocked := [M0]; s_send_default := true; s_send := [];
+     s_accts := [M0; U1; U2]; s_mtok := [];
+     s_ext := [(TOK, {| st_bal := [(U2, 1000)]; st_total := 1000; st_allow := [] |})] |}.
+
+Definition confiscation : list op :=
+  [ OMsg (MCE {| ce_contract := TOKs; ce_amount := 100; ce_receiver := U2; ce_receiver_ok := true;
+                 ce_sender := U2s; ce_denom := VOUCHER |});
+    OTokenCall TOK U1 (CBurnCoins M0 100) ].   (* the deployer: burnCoins(module, 100) *)
+
+Theorem C11_voucher_backing_confiscation_refuted :
+  honest_view (user_std_call U1) user_std_ledger /\
+  WFv start_user /\ VNamed start_user /\ VBacked M0 user_std_ledger start_user /\
+  Forall (not_module_signed M0) confiscation /\ Forall no_voucher_mint confiscation /\
+  let s := run (user_std_call U1) user_std_contract M0 start_user confiscation in
+  sget (s_supply s) VOUCHER = 100 /\ user_std_ledger (s_ext s) TOK M0 = 0 /\ ~ VBacked M0 user_std_ledger s.
+Proof.
+  split; [apply user_std_honest|]. split.
+  { pose proof (start_wf []) as W. unfold WFv, WF in *. exact W. }
+  split.
+  { intros id p v [H|[]] _ D. inversion H; subst. cbn in D. inversion D; subst. vm_compute. reflexivity. }
+  split.
+  { intros id p v [H|[]] _ D _. inversion H; subst. cbn in D. inversion D; subst. vm_compute. discriminate. }
+  split.
+  { repeat constructor; unfold not_module_signed; cbn; intro H; inversion H. }
+  split; [repeat constructor|]. cbv zeta.
+  split; [vm_compute; reflexivity|]. split; [vm_compute; reflexivity|].
+  intro Bk. specialize (Bk PID the_pair VOUCHER). vm_compute in Bk. apply Bk; try reflexivity. left; reflexivity.
+Qed.
+
+(** ** 4. The hypotheses of the native-coin theorems are necessary as well.
+    A module-owned pair (contract MTOK, denomination "acoin"), 50 acoin escrowed, 50 tokens held by U1. *)
+Definition MTOK : Z := 0x90d3e9B208998d1048467bFDcbE3661322373712.
+Definition MTOKs : bytes := B "0x90d3e9B208998d1048467bFDcbE3661322373712".
+Definition ACOIN : bytes := B "acoin".
+Definition mpair : pair := {| p_id := PID; p_erc20 := MTOK; p_denoms := [ACOIN]; p_enabled := true; p_owner := 1 |}.
+Definition start_mod (blocked : list Z) : state xstate :=
+  {| s_params := true; s_evm_call := true;
+     s_pairs := [(PID, mpair)]; s_erc20 := [(MTOK, PID)]; s_denom := [(ACOIN, PID)];
+     s_bank := [((M0, ACOIN), 50)]; s_supply := [(ACOIN, 50)]; s_blocked := blocked; s_send_default := true; s_send := [];
+     s_accts := [M0; U1; U2];
+     s_mtok := [(MTOK, {| st_bal := [(U1, 50)]; st_total := 50; st_allow := [] |})]; s_ext := [] |}.
+
+Lemma start_mod_wf bl : WF (start_mod bl).
+Proof.
+  split; [|split; [|split]]; cbn [start_mod s_pairs s_denom map fst].
+  - repeat constructor. intros [].
+  - intros id p [H|[]]. inversion H; subst. cbn [mpair p_id p_denoms]. split; [reflexivity|].
+    split; [repeat constructor; intros []|]. intros d [<-|[]]. vm_compute. reflexivity.
+  - intros d p H. cbn [aget] in H. destruct (bytes_eqb ACOIN d) eqn:E.
+    + apply bytes_eqb_eq in E; subst d. vm_compute in H. inversion H; subst. left; reflexivity.
+    + vm_compute in H. discriminate.
+  - intros p [H|[]]. inversion H.
+Qed.
+
+(** [not_module_signed] is necessary for [C11_native_coin_backing]: a MsgConvertCoin whose sender is the module
+    account (impossible on chain: nobody can sign for it) "escrows" the module's own coins and mints tokens for them *)
+Theorem C11_backing_needs_not_module_signed_refuted :
+  let s := start_mod [M0] in
+  let m := MCC {| cc_denom := ACOIN; cc_amount := 10; cc_receiver := U1s; cc_sender := M0; cc_sender_ok := true |} in
+  WF s /\ Backed M0 s /\ ~ not_module_signed M0 (OMsg m) /\
+  snd (deliver xcall0 xcontract0 M0 s m) = 0%nat /\ ~ Backed M0 (step xcall0 xcontract0 M0 s (OMsg m)).
+Proof.
+  cbv zeta. split; [apply start_mod_wf|]. split.
+  { intros c t F. unfold find_mtok in F. cbn [start_mod s_mtok afind] in F.
+    destruct (MTOK =? c) eqn:E; [|discriminate]. inversion F; subst t. apply Z.eqb_eq in E; subst c.
+    vm_compute. discriminate. }
+  split; [intro N; apply N; reflexivity|]. split; [vm_compute; reflexivity|].
+  intro Bk. specialize (Bk MTOK). vm_compute in Bk. specialize (Bk _ eq_refl). apply Bk. reflexivity.
+Qed.
+
+(** ... and for [C11_conversions_preserve_gap]: the same message widens nothing but mints 10 unbacked tokens
+    (gap 0 -> -10) *)
+Theorem C11_gap_needs_not_module_signed_refuted :
+  let s := start_mod [M0] in
+  let o := OMsg (MCC {| cc_denom := ACOIN; cc_amount := 10; cc_receiver := U1s; cc_sender := M0; cc_sender_ok := true |}) in
+  let s' := step xcall0 xcontract0 M0 s o in
+  WF s /\ is_conversion o /\
+  backing M0 s MTOK - 50 = 0 /\ option_map st_total (find_mtok s' MTOK) = Some 60 /\ backing M0 s' MTOK - 60 = -10.
+Proof.
+  cbv zeta. split; [apply start_mod_wf|]. split; [exact I|].
+  repeat split; vm_compute; reflexivity.
 Qed.
